@@ -501,7 +501,7 @@ func TestKnownTypename(t *testing.T) {
 		}
 	}
 	for _, svc := range part.Services {
-		for _, o := range []string{"F1", "F2", "F3"} {
+		for _, o := range []string{"F1", "F2", "F_3"} {
 			part.Keys[svc+"/"+o] = "id"
 		}
 	}
@@ -543,7 +543,7 @@ func TestSiblingHops(t *testing.T) {
 		}
 	}
 	for _, svc := range part.Services {
-		for _, o := range []string{"F1", "F2", "F3"} {
+		for _, o := range []string{"F1", "F2", "F_3"} {
 			part.Keys[svc+"/"+o] = "id"
 		}
 	}
